@@ -213,6 +213,7 @@ func main() {
 	e.params = out.Params
 	e.reverseMaps = *revMaps
 	e.opaquePubKeys = out.Params["opaque_pubkeys"] == 1
+	e.modelRecover = out.Params["model_recover"] == 1
 	e.redirects = map[string]*ssa.Function{}
 	e.noops = map[string]bool{}
 	for _, n := range noops {
